@@ -54,17 +54,20 @@ type Options struct {
 
 // World is the closed system.
 type World struct {
-	Dir     string
-	Opt     Options
-	N       *simnode.Node
-	I       *inst.Inst
-	Wallets map[string]*Wallet
-	owner   map[string]*Addr
-	SPk     []byte // stranger standard pkScript
-	SHash   []byte
-	S2Pk    []byte // second stranger script (double-spend destination)
-	led     *Ledger
-	ledTip  wire.Hash
+	Dir         string
+	Opt         Options
+	N           *simnode.Node
+	I           *inst.Inst
+	Wallets     map[string]*Wallet
+	owner       map[string]*Addr
+	SPk         []byte // stranger standard pkScript
+	SHash       []byte
+	S2Pk        []byte // second stranger script (double-spend destination)
+	led         *Ledger
+	ledTip      wire.Hash
+	Pend        *PendingRef
+	Relayed     []*wire.MsgTx
+	RelayedKind []string
 	// HandlerErrs collects errors returned by the handler entry points (handle() only logs them).
 	HandlerErrs []string
 }
@@ -104,6 +107,7 @@ func New(dir string, opt Options) (*World, error) {
 	env.SetConsensus(opt.Cons)
 	env.RestoreRand()
 	oracle() // built under system randomness, before the deterministic stream starts
+	(&simnode.Server{N: oracleNode}).SyncManager()
 	env.SeedRand("world:" + opt.SeedName)
 	n, err := simnode.New(filepath.Join(dir, "node"))
 	if err != nil {
@@ -118,6 +122,7 @@ func New(dir string, opt Options) (*World, error) {
 		return nil, err
 	}
 	w := &World{Dir: dir, Opt: opt, N: n, I: i, Wallets: map[string]*Wallet{}, owner: map[string]*Addr{}}
+	w.Pend = &PendingRef{Txs: map[wire.Hash]*wire.MsgTx{}, Tip: n.Tip()}
 	w.SHash = fixedHash(0x51)
 	w.SPk = stdPk(w.SHash)
 	w.S2Pk = stdPk(fixedHash(0x52))
@@ -215,8 +220,10 @@ func (w *World) Deliver() error {
 	}
 	var err error
 	if nt.Block != nil {
+		w.refDeliverBlock(nt.Block)
 		err = w.I.W.VerifProcessBlock(nt.Block)
 	} else {
+		w.refDeliverTx(nt.Tx)
 		err = w.I.W.VerifProcessTx(nt.Tx)
 	}
 	if err != nil {
